@@ -7,6 +7,8 @@ EXTENDS Naturals, Integers, Sequences, FiniteSets, TLC
 LOCAL INSTANCE SequencesExt          \* FoldLeft only; not re-exported (its Min/Max would clash with Str)
 
 BnB == 32768
+\* re-export of the iterative fold for the modules above (they cannot instantiate SequencesExt next to Str)
+BnFold(bn_op(_, _), bn_base, bn_seq) == FoldLeft(bn_op, bn_base, bn_seq)
 BnIdx(n) == [bn_i \in 1..n |-> bn_i]
 BnMax(x, y) == IF x > y THEN x ELSE y
 BnMin(x, y) == IF x < y THEN x ELSE y
